@@ -1,5 +1,6 @@
 pub mod crash;
 pub mod lock;
+pub mod model;
 pub mod phase;
 pub mod repl;
 pub mod rights;
@@ -19,6 +20,7 @@ pub fn generate(engine: &str, prop: &str, seed: u64, thorough: bool) -> Trace {
         "phase" => phase::generate(seed, prop, thorough),
         "serve" => serve::generate(seed, prop, thorough),
         "trust" => trust::generate(seed, prop, thorough),
+        "model" => model::generate(seed, prop, thorough),
         _ => panic!("unknown engine {engine}"),
     }
 }
@@ -32,6 +34,7 @@ pub fn directed(engine: &str, prop: &str) -> Vec<Trace> {
         "phase" => phase::directed(prop),
         "serve" => serve::directed(prop),
         "trust" => trust::directed(prop),
+        "model" => model::directed(prop),
         _ => vec![],
     }
 }
@@ -45,6 +48,7 @@ pub fn execute(trace: &Trace, keep_log: bool) -> (RunReport, Vec<String>) {
         "phase" => phase::execute(trace, keep_log),
         "serve" => serve::execute(trace, keep_log),
         "trust" => trust::execute(trace, keep_log),
+        "model" => model::execute(trace, keep_log),
         e => panic!("unknown engine {e}"),
     }
 }
@@ -237,6 +241,17 @@ pub fn specs() -> Vec<PropSpec> {
             ],
             real: &["LocalPeerService::start / initialise_connection", "InboundQueryService", "QueryService", "PeerManager (tokens, invitations, allowed peers)", "RoomLockService", "database service"],
             stub: &["DiscretEndpoint (struct around a simulator-owned channel)", "QUIC / multicast / beacon", "PeerConnectionService loop (its message handling is replayed by the simulator with the real PeerManager)"],
+            batch: 1,
+        },
+        PropSpec {
+            id: "C15",
+            engine: "model",
+            budget_s: (50, 600),
+            level: "exploration",
+            rule: "two real nodes holding data; sequences of data-model versions generated by valid edits (new field nullable or with default, several fields at once, new entity, new namespace, nullable to default, deprecations, index added/removed) and invalid edits (field removed, reordered, retyped, required without default, entity removed or inserted first, nullable to required, a version valid for one entity and invalid for another), applied at run time or at restart, with restarts on the same model and request-cache exercises in between; the hash-map seed differs per run (and per map inside a run); distinct = distinct schedule signature (edits, where applied, verdicts)",
+            assumptions: &["accept/refuse expectations come from the construction of each edit (documented compatibility rules)"],
+            real: repl_real,
+            stub: &["no network in this engine"],
             batch: 1,
         },
     ]
